@@ -116,6 +116,7 @@ def trees(tier):
         t = keep + S.D3flow()[:12]
     else:
         t += S.D3flow() + S.D3_quick()
+    t += S.DX()
     seen, out = set(), []
     for s in t:
         k = S.key(s)
